@@ -673,9 +673,14 @@ def build_population_circuit(ps):
         ce = c.get("edge")
         if ce:
             from pyrates import EdgeTemplate
-            eop = OperatorTemplate(name=ce["name"], equations=[mdl.eq_str(l, k, t) for l, k, t in ce["eqs"]],
-                                   variables={v: mdl.var_decl(vt, d) for v, (vt, d) in ce["vars"].items()}, path=None)
-            kw["edge"] = EdgeTemplate(name=f"et_{ce['name']}", operators=[eop], path=None)
+            if ce.get("ops_split"):
+                # the same coupling written as several chained operators, in the DECLARATION order given (not necessarily evaluation order)
+                eops = [OperatorTemplate(name=o_["name"], equations=[mdl.eq_str(l, k, t) for l, k, t in o_["eqs"]],
+                                         variables={v: mdl.var_decl(vt, d) for v, (vt, d) in o_["vars"].items()}, path=None) for o_ in ce["ops_split"]]
+            else:
+                eops = [OperatorTemplate(name=ce["name"], equations=[mdl.eq_str(l, k, t) for l, k, t in ce["eqs"]],
+                                         variables={v: mdl.var_decl(vt, d) for v, (vt, d) in ce["vars"].items()}, path=None)]
+            kw["edge"] = EdgeTemplate(name=f"et_{ce['name']}", operators=eops, path=None)
             kw["edge_var_map"] = dict(ce["map"])
         conns.append(Connectivity(source=c["src"], target=c["tgt"], weights=W, **kw))
     return CircuitTemplate(name="popnet", populations=pops, connections=conns)
